@@ -80,8 +80,14 @@ Definition ps_union (p o : portset) : portset :=
                           (ps_excl o) excl1 in
   mkPS (iunion (ps_ports p) (ps_ports o)) named' excl'.
 
-(* ContainedIn looks at numeric ports only (as the Go code does) *)
-Definition ps_containedin (p o : portset) : bool := isubset (ps_ports p) (ps_ports o).
+(* ContainedIn: the numbered ports are a subset, and every named port of p is a named port of o
+   unless o holds all the port numbers *)
+Definition ps_containedin (p o : portset) : bool :=
+  isubset (ps_ports p) (ps_ports o)
+  && match ps_named p with
+     | [] => true
+     | names => iset_eqb (ps_ports o) (ifull minPort maxPort) || forallb (fun n => sset_mem n (ps_named o)) names
+     end.
 
 Definition ps_inter (p o : portset) : portset :=
   mkPS (iinter (ps_ports p) (ps_ports o)) (ps_named p) (ps_excl p).
